@@ -292,6 +292,25 @@ def convert_ellipsis_to_idx(
     return new_index
 
 
+def _check_index_ndim(index, batch_dims: int) -> None:
+    """Raises an IndexError, as torch does, if an index addresses more dims than there are batch dims."""
+    if not isinstance(index, tuple):
+        index = (index,)
+    ndim = 0
+    for idx in index:
+        if idx is None or idx is Ellipsis or isinstance(idx, bool):
+            continue
+        if isinstance(idx, Tensor) and idx.dtype == torch.bool:
+            ndim += idx.ndim
+        elif isinstance(idx, np.ndarray) and idx.dtype == np.dtype("bool"):
+            ndim += idx.ndim
+        else:
+            ndim += 1
+    if ndim > batch_dims:
+        # same wording as torch
+        raise IndexError(f"too many indices for tensor of dimension {batch_dims}")
+
+
 def _copy(self: list[int]) -> list[int]:
     return list(self)
 
